@@ -397,7 +397,7 @@ class StmtOps:
         live = self.st
         try:
             for it in items:
-                if it.startswith(('ghost:', 'heap:', 'fresh:')) or it == 'alloc':
+                if it.startswith(('ghost:', 'heap:', 'fresh:', 'new:')) or it == 'alloc':
                     continue
                 if it.startswith('list(') or it.startswith('dict('):
                     tmp = head.snapshot()
@@ -426,9 +426,14 @@ class StmtOps:
                 objs.setdefault(n.attr, []).append(o.term)
         finally:
             st.env = saved
+        newattrs = {it[4:] for it in items if it.startswith('new:')}
         for attr, arr in st.heap.items():
             old = head.heap.get(attr, st.decls.base_heap.get(attr))
             if old is None or old == arr or attr in whole:
+                continue
+            if attr in newattrs:
+                goal = "(forall ((r Int)) %s)" % mk_implies(mk_lt('r', self.alloc0), mk_eq(mk_select(arr, 'r'), mk_select(old, 'r')))
+                st.oblige(goal, '%s: attribute %s changes only on objects allocated by this function' % (what, attr), node.lineno, kind='invariant')
                 continue
             excl = [mk_not(mk_eq('r', o)) for o in objs.get(attr, [])]
             excl += [mk_not(self.cls_in('r', self.family_classes(f))) for f in (famwhole or {}).get(attr, [])]
@@ -438,7 +443,8 @@ class StmtOps:
                       node.lineno, kind='invariant')
         if st.seqh is not None and head.seqh is not None and st.seqh != head.seqh:
             excl = [mk_not(mk_eq('r', l)) for l in lists]
-            goal = "(forall ((r Int)) %s)" % mk_implies(mk_and(mk_lt('r', entry_alloc), *excl),
+            bound = self.alloc0 if 'SEQ' in newattrs else entry_alloc
+            goal = "(forall ((r Int)) %s)" % mk_implies(mk_and(mk_lt('r', bound), *excl),
                                                        mk_eq(mk_select(st.seqh, 'r'), mk_select(head.seqh, 'r')))
             st.oblige(goal, '%s: lists that existed before the loop change only where the loop says so' % what, node.lineno, kind='invariant')
         if st.ddom is not None and head.ddom is not None and (st.ddom != head.ddom or st.dval != head.dval):
@@ -484,7 +490,7 @@ class StmtOps:
             raise Unsupported('guarded modifies items are for contracts, not for loop annotations', node)
         for it in items:
             if not (it.startswith('dict(') or it.startswith('list(') or it.startswith('ghost:') or it.startswith('heap:')
-                    or it.startswith('fresh:') or it == 'alloc'):
+                    or it.startswith('fresh:') or it.startswith('new:') or it == 'alloc'):
                 covered.add(it.rsplit('.', 1)[-1])
         entry_alloc = st.alloc
         famwhole = {}
